@@ -281,6 +281,39 @@ func genC12(g *G) {
 	for i := 0; i < g.Count(300, 20000); i++ {
 		g.Emit("newid", hx(c12RandSess(g)), itoa(c12RandType(g)))
 	}
+	// --- exhaustive interleavings on ONE or TWO (session, type) buckets: every order of subscribe / cancel (also of
+	// already cancelled = stale ids, and of an id after a newer subscription) / deliver up to the given length, each
+	// closed by one inbound stream that carries a message for every bucket
+	bk := []string{hs("1-2-100-104-0") + ":4", hs("1-2-100-104-0") + ":5"}
+	var inter func(ops []string, nsub, depth, maxLen, nb int)
+	inter = func(ops []string, nsub, depth, maxLen, nb int) {
+		if depth > 0 {
+			g.Emit("run", strings.Join(ops, ";")+";m:"+strings.Join(bk[:nb], "+"))
+		}
+		if depth == maxLen {
+			return
+		}
+		ext := func(op string, ns int) {
+			inter(append(append([]string{}, ops...), op), ns, depth+1, maxLen, nb)
+		}
+		for b := 0; b < nb; b++ {
+			ext("s:"+bk[b], nsub+1)
+		}
+		if nsub == 0 {
+			return // a history starts with a subscription
+		}
+		for k := 0; k < nsub; k++ {
+			ext("u:"+itoa(k), nsub)
+		}
+		// a delivery in the middle only after at least one cancel or two subscriptions (otherwise the closing stream says it all)
+		if depth >= 2 {
+			for b := 0; b < nb; b++ {
+				ext("d:"+bk[b], nsub)
+			}
+		}
+	}
+	inter(nil, 0, 0, g.Count(6, 7), 1)
+	inter(nil, 0, 0, g.Count(5, 6), 2)
 	// --- histories
 	for i := 0; i < g.Count(2500, 120000); i++ {
 		ns := 1 + g.Intn(4)
